@@ -28,6 +28,9 @@ def state_writers(prog, p, root, start=0):
     return out
 
 
+ALSO_PORTABLE = True
+
+
 def run(ctx, chk):
     prog = ctx.prog()
     chk.configs.append("native -O0+mem2reg")
